@@ -1,8 +1,374 @@
-/- line-protocol handlers for the C19 models (stub: nothing modelled yet) -/
-import FontVerif.Model.Base
+/- line-protocol handlers for the C19 models (Model/PatchMap*.lean, UriTemplate.lean, PatchGroup.lean) -/
+import FontVerif.Model.PatchGroup
 namespace FontVerif.Drv.C19
-open FontVerif
+open FontVerif FontVerif.PatchMap FontVerif.UriTemplate FontVerif.PatchGroup
 
-def handle (_cmd : String) (_args : List String) : Option String := none
+/-! ## token parser -/
+
+abbrev P := StateT (List String) Option
+
+def tok : P String := do
+  match (← get) with
+  | [] => failure
+  | t :: ts => set ts; pure t
+
+def pNat : P Nat := do
+  match (← tok).toNat? with
+  | some n => pure n
+  | none => failure
+
+def pInt : P Int := do
+  match (← tok).toInt? with
+  | some n => pure n
+  | none => failure
+
+def pBool : P Bool := do
+  match (← tok) with
+  | "0" => pure false
+  | "1" => pure true
+  | _ => failure
+
+def pHex : P (List Nat) := do
+  match parseHex? (← tok) with
+  | some b => pure b
+  | none => failure
+
+def pMany {α : Type} (p : P α) : Nat → P (List α)
+  | 0 => pure []
+  | n + 1 => do
+    let x ← p
+    let xs ← pMany p n
+    pure (x :: xs)
+
+def pList {α : Type} (p : P α) : P (List α) := do
+  let n ← pNat
+  pMany p n
+
+def pRange : P (Int × Int) := do
+  let lo ← pInt
+  let hi ← pInt
+  pure (lo, hi)
+
+def pAxis : P (Nat × Ranges) := do
+  let tag ← pNat
+  let segs ← pList pRange
+  pure (tag, segs)
+
+/-- `D <ncp> (lo hi)* <featAll> <nf> tag* <dsAll> <nax> (tag nseg (s e)*)*` -/
+def pDef : P SubsetDef := do
+  let t ← tok
+  if t ≠ "D" then failure
+  let cps ← pList pRange
+  let fAll ← pBool
+  let tags ← pList pNat
+  let dAll ← pBool
+  let axes ← pList pAxis
+  pure { cps := cps, feats := if fAll then .all else .set tags,
+         ds := if dAll then .all else .ranges axes }
+
+def pSeg : P (Nat × Int × Int) := do
+  let tag ← pNat
+  let s ← pInt
+  let e ← pInt
+  pure (tag, s, e)
+
+def pRaw : P RawEntry := do
+  let flags ← pNat
+  let feats ← pList pNat
+  let segs ← pList pSeg
+  let childByte ← pNat
+  let children ← pList pNat
+  let delta ← pInt
+  let fmt ← pNat
+  let bias ← pNat
+  let cpsOk ← pBool
+  let cps ← pList pRange
+  let size ← pNat
+  pure { flags, feats, segs, childByte, children, delta, fmt, bias,
+         cps := if cpsOk then some cps else none, size }
+
+def pFeatRec : P FeatRec := do
+  let tag ← pNat
+  let firstNew ← pNat
+  let count ← pNat
+  pure { tag, firstNew, count }
+
+def pPair : P (Nat × Nat) := do
+  let a ← pNat
+  let b ← pNat
+  pure (a, b)
+
+def pTable : P MapTable := do
+  match (← tok) with
+  | "N" => pure .none
+  | "F2" =>
+    let compat ← pNat
+    let defaultFormat ← pNat
+    let entriesOffset ← pNat
+    let hasIdStrings ← pBool
+    let idData ← pHex
+    let template ← pHex
+    let utf8Ok ← pBool
+    let raws ← pList pRaw
+    pure (.f2 { compat, defaultFormat, entriesOffset, hasIdStrings, idData, template, utf8Ok, raws })
+  | "F1" =>
+    let compat ← pNat
+    let maxEntry ← pNat
+    let maxGm ← pNat
+    let glyphCount ← pNat
+    let maxpGlyphs ← pNat
+    let bitmapStart ← pNat
+    let bitmap ← pHex
+    let template ← pHex
+    let utf8Ok ← pBool
+    let patchFormat ← pNat
+    let firstGid ← pNat
+    let entryIndex ← pList pNat
+    let hasFeatureMap ← pBool
+    let featRecs ← pList pFeatRec
+    let entryMaps ← pList pPair
+    let entryMapBytes ← pNat
+    let cmap ← pList pPair
+    pure (.f1 { compat, maxEntry, maxGm, glyphCount, maxpGlyphs, bitmapStart, bitmap, template, utf8Ok,
+                patchFormat, firstGid, entryIndex, hasFeatureMap, featRecs, entryMaps,
+                entryMapBytes, cmap })
+  | _ => failure
+
+def runP {α : Type} (p : P α) (args : List String) : Option α :=
+  match p.run args with
+  | some (a, []) => some a
+  | _ => none
+
+/-! ## rendering -/
+
+def showRanges (r : Ranges) : String :=
+  if r.isEmpty then "-" else ",".intercalate (r.map fun p => s!"{p.1}..{p.2}")
+
+def showNats (r : List Nat) : String :=
+  if r.isEmpty then "-" else ",".intercalate (r.map toString)
+
+def showAxes (a : List (Nat × Ranges)) : String :=
+  if a.isEmpty then "-" else ";".intercalate (a.map fun p => s!"{p.1}={showRanges p.2}")
+
+def showDef (d : SubsetDef) : String :=
+  let f := match d.feats with | .all => "*" | .set s => showNats s
+  let ds := match d.ds with | .all => "*" | .ranges a => showAxes a
+  s!"cp[{showRanges d.cps}]ft[{f}]ds[{ds}]"
+
+def showId : PatchId → String
+  | .num n => s!"n{n}"
+  | .str b => s!"s{toHex b}"
+
+def showInfo (i : IntersectionInfo) : String :=
+  let ds := if i.ds.isEmpty then "-" else ",".intercalate (i.ds.map fun p => s!"{p.1}:{p.2}")
+  s!"{i.cps}/{i.tags}/{ds}/{i.order}"
+
+def showTag : TableTag → String
+  | .ift => "IFT" | .iftx => "IFTX"
+
+def showUriStr : Option (List Nat) → String
+  | none => "!"
+  | some s => toHex s
+
+def showPatchUri (u : PatchUri) : String :=
+  s!"{showTag u.table}:{showId u.id}:f{u.enc.number}:b{u.bit}:i{showInfo u.info}:u{showUriStr (uriString u)}"
+
+def showEntry (e : Entry) : String :=
+  s!"<{showDef e.sd}|ch[{showNats e.children}]{if e.conj then "&" else "|"}|{if e.ignored then "ign" else "live"}|{showId e.uri.id}|f{e.uri.enc.number}|b{e.uri.bit}>"
+
+def showList (xs : List String) : String := if xs.isEmpty then "-" else " ".intercalate xs
+
+def showPatchInfo (p : PatchInfo) : String := s!"{showTag p.table}:b{p.bit}:u{toHex p.uri}"
+
+def showScoped : Scoped → String
+  | .partialInv p => s!"P({showPatchInfo p})"
+  | .noInv m => s!"N({",".intercalate (m.map fun q => showPatchInfo q.2)})"
+
+def showGroup : Option Group → String
+  | none => "none"
+  | some (.full p) => s!"Full({showPatchInfo p})"
+  | some (.mixed a b) => s!"Mixed[{showScoped a}][{showScoped b}]"
+
+/-! ## scripted extension runs -/
+
+/-- one patch the scripted server can deliver -/
+structure ServerPatch where
+  uri : Uri
+  /-- 0 = table keyed, 1 = glyph keyed -/
+  kind : Nat
+  compat : Nat
+  /-- table-keyed effect: index into the pool of table states (`none` = keep the table) -/
+  newIft : Option Nat
+  newIftx : Option Nat
+  deriving Inhabited
+
+def pOptIdx : P (Option Nat) := do
+  let i ← pInt
+  pure (if i < 0 then none else some i.toNat)
+
+def pServerPatch : P ServerPatch := do
+  let uri ← pHex
+  let kind ← pNat
+  let compat ← pNat
+  let newIft ← pOptIdx
+  let newIftx ← pOptIdx
+  pure { uri, kind, compat, newIft, newIftx }
+
+abbrev FontState := MapTable × MapTable
+
+def tableOf (f : FontState) : TableTag → MapTable
+  | .ift => f.1
+  | .iftx => f.2
+
+/-- set the application bit `bit` of a mapping table (what `apply_glyph_keyed_patches` does to the
+table bytes), at the level of parsed fields -/
+def setAppliedBit (bit : Nat) : MapTable → MapTable
+  | .none => .none
+  | .f1 t =>
+    let idx := bit - t.bitmapStart * 8
+    .f1 { t with bitmap := (List.range t.bitmap.length).map fun i =>
+            let b := t.bitmap.getD i 0
+            if i = idx / 8 ∧ b / 2 ^ (idx % 8) % 2 = 0 then b + 2 ^ (idx % 8) else b }
+  | .f2 t =>
+    let rec go (start : Nat) : List RawEntry → List RawEntry
+      | [] => []
+      | r :: rs =>
+        (if start * 8 + 6 = bit ∧ !r.isIgnored then { r with flags := r.flags + 64 } else r)
+          :: go (start + r.size) rs
+    .f2 { t with raws := go t.entriesOffset t.raws }
+
+def withTable (f : FontState) (tag : TableTag) (t : MapTable) : FontState :=
+  match tag with
+  | .ift => (t, f.2)
+  | .iftx => (f.1, t)
+
+def fontCompat (f : FontState) (tag : TableTag) : Option Nat := MapTable.compatId (tableOf f tag)
+
+def applyTkScript (pool : List MapTable) (server : List ServerPatch) (f : FontState)
+    (p : PatchInfo) (data : List Nat) : Except String FontState :=
+  match fontCompat f p.table with
+  | none => .error "err:FontParsingFailed"
+  | some fc =>
+    if fc ≠ p.compat then .error "err:IncompatiblePatch" else
+    match server[data.headD 0]? with
+    | none => .error "err:bad-script"
+    | some sp =>
+      if sp.kind ≠ 0 then .error "err:InvalidPatch" else
+      if sp.compat ≠ fc then .error "err:IncompatiblePatch" else
+      let f1 := match sp.newIft with | some i => (pool.getD i .none, f.2) | none => f
+      let f2 := match sp.newIftx with | some i => (f1.1, pool.getD i .none) | none => f1
+      .ok f2
+
+def applyGkScript (server : List ServerPatch) (f : FontState)
+    (ps : List (PatchInfo × List Nat)) : Except String FontState :=
+  let rec check : List (PatchInfo × List Nat) → Option String
+    | [] => none
+    | (p, data) :: rest =>
+      match fontCompat f p.table with
+      | none => some "err:FontParsingFailed"
+      | some fc =>
+        if fc ≠ p.compat then some "err:IncompatiblePatch" else
+        match server[data.headD 0]? with
+        | none => some "err:bad-script"
+        | some sp =>
+          if sp.kind ≠ 1 then some "err:PatchParsingFailed" else
+          if sp.compat ≠ fc then some "err:IncompatiblePatch" else check rest
+  match check ps with
+  | some e => .error e
+  | none =>
+    .ok (ps.foldl (fun f (q : PatchInfo × List Nat) =>
+      withTable f q.1.table (setAppliedBit q.1.bit (tableOf f q.1.table))) f)
+
+/-- a run, rendered round by round.  A uri the server does not know ends the run (`fetch-failed`). -/
+def runScript (d : SubsetDef) (pool : List MapTable) (server : List ServerPatch) :
+    Nat → FontState → PatchData → List String → String
+  | 0, _, _, acc => showList (acc ++ ["fuel"])
+  | fuel + 1, f, pd, acc =>
+    match selectNext f.1 f.2 d with
+    | .error e => showList (acc ++ [s!"select:{e}"])
+    | .ok g =>
+      if !hasUris g then
+        showList (acc ++ [s!"done:{appliedCount pd}"])
+      else
+        let uris := optUris g
+        let idxOf := fun (u : Uri) => (server.findIdx? fun sp => sp.uri = u)
+        if uris.any (fun u => (idxOf u).isNone && (pdGet pd u).isNone) then
+          showList (acc ++ [s!"[{",".intercalate (uris.map toHex)}]", "fetch-failed"])
+        else
+          let pd1 := fetchMissing (fun u => [(idxOf u).getD 0]) pd uris
+          match applyNext g (applyTkScript pool server f) (applyGkScript server f) pd1 with
+          | .error e => showList (acc ++ [s!"[{",".intercalate (uris.map toHex)}]", s!"apply:{e}"])
+          | .ok (f', pd') =>
+            runScript d pool server fuel f' pd'
+              (acc ++ [s!"[{",".intercalate (uris.map toHex)}]+{appliedCount pd'}"])
+
+/-! ## commands -/
+
+def exceptStr {α : Type} (f : α → String) : Except String α → String
+  | .error e => e
+  | .ok a => f a
+
+def pInfo : P IntersectionInfo := do
+  let cps ← pNat
+  let tags ← pNat
+  let ds ← pList (do let t ← pNat; let v ← pInt; pure (t, v))
+  let order ← pNat
+  pure { cps, tags, ds, order }
+
+def showOrdering : Ordering → String
+  | .lt => "lt" | .eq => "eq" | .gt => "gt"
+
+def handle (cmd : String) (args : List String) : Option String :=
+  match cmd with
+  | "f2dec" =>
+    runP (do
+      let iftx ← pBool
+      let t ← pTable
+      match t with
+      | .f2 t => pure (exceptStr (fun es => showList (es.map showEntry))
+                    (decodeF2 (if iftx then .iftx else .ift) t))
+      | _ => failure) args
+  | "isect" =>
+    runP (do
+      let d ← pDef
+      let a ← pTable
+      let b ← pTable
+      pure (exceptStr (fun us => showList (us.map showPatchUri)) (intersectingPatches a b d))) args
+  | "select" =>
+    runP (do
+      let d ← pDef
+      let a ← pTable
+      let b ← pTable
+      pure (exceptStr (fun g => s!"{showGroup g} has={if hasUris g then 1 else 0} uris={showList ((optUris g).map toHex)}")
+        (selectNext a b d))) args
+  | "uri" =>
+    runP (do
+      let template ← pHex
+      let kind ← tok
+      let id ← (if kind = "n" then (do let n ← pNat; pure (PatchId.num n))
+                else if kind = "s" then (do let b ← pHex; pure (PatchId.str b)) else failure)
+      pure (match expandTemplate template id with
+        | none => "err"
+        | some s => toHex s)) args
+  | "cmpinfo" =>
+    runP (do
+      let a ← pInfo
+      let b ← pInfo
+      pure (showOrdering (a.cmp b))) args
+  | "defop" =>
+    runP (do
+      let a ← pDef
+      let b ← pDef
+      pure s!"{showDef (a.union b)} {showDef (a.intersection b)} {if localIntersects a b then 1 else 0}") args
+  | "run" =>
+    runP (do
+      let d ← pDef
+      let a ← pTable
+      let b ← pTable
+      let pool ← pList pTable
+      let server ← pList pServerPatch
+      let fuel ← pNat
+      pure (runScript d pool server fuel (a, b) [] [])) args
+  | _ => none
 
 end FontVerif.Drv.C19
